@@ -24,6 +24,7 @@ pub open spec fn info_matches(info: PacketSentInfo, p: Packet) -> bool {
 
 /// the records of the first `n` packets of `pk` (numbered from `seq0`) are filed under their sequence numbers with time stamp `now`,
 /// every other record is as in `pre`
+#[verifier::opaque]
 pub open spec fn records_written(pre: Map<u64, PacketSent>, post: Map<u64, PacketSent>, pk: Seq<Packet>, seq0: int, n: int, now: Duration) -> bool {
     &&& forall|i: int| 0 <= i < n ==> {
             &&& post.contains_key((seq0 + i) as u64)
